@@ -79,7 +79,7 @@ Qed.
 Lemma inv2_step pre t : Inv2 pre -> step_ok pre t = true -> Inv2 (pre ++ [t]).
 Proof.
   intros I H. destruct t as [[o r] ev]. pose proof I as (A & B & C & D & E).
-  destruct o as [name f|name|name|uid|uid]; cbn [step_ok] in H; try discriminate.
+  destruct o as [name f|name|name|uid|uid|name]; cbn [step_ok] in H; try discriminate.
   - (* OpenDB *)
     destruct (0 <? balance name pre) eqn:Hpos.
     + destruct (cur name pre) as [u|] eqn:Hc; [|discriminate]. apply andb_true_iff in H. destruct H as [H1 H2].
@@ -93,7 +93,7 @@ Proof.
         apply inv2_noev; auto.
         -- intros nm. rewrite !count_if_snoc. cbn [is_close_ok is_open_ok]. specialize (E nm). lia.
         -- intros nm H0. rewrite balance_snoc by apply E. cbn [is_open_ok is_close_ok]. lia.
-      * destruct r as [u| | | | | |]; try discriminate. apply andb_true_iff in H. destruct H as [H1 H2].
+      * destruct r as [u| | | | | | |]; try discriminate. apply andb_true_iff in H. destruct H as [H1 H2].
         apply negb_true_iff in H1. apply uevents_eqb_eq in H2. subst ev.
         assert (Hnot : forall n, ~ In (n, u) (uopens pre)).
         { intros n Hin. assert (used_uid u pre = true) by (apply used_uid_in; exists n; exact Hin). congruence. }
